@@ -14,26 +14,87 @@ from .integ_common import kwargs_for, integrate, NAMES
 PROP = 'C20'
 GENERATED = ['Effects']
 NEEDS_BUILD = True
-NEEDS_DRIVER = False
-DRIVER_MODULES = []
+NEEDS_DRIVER = True
+DRIVER_MODULES = ['Memo']
 
 OPS = os.path.join(os.path.dirname(os.path.abspath(__file__)), 'c20_ops.py')
 
-def run_ops(path, seed, idx, hashseed=None):
+def run_ops(path, seed, idx, hashseed=None, fresh_each=False, occurrences=False):
     env = dict(os.environ); env.pop('PYTHONPATH', None)
+    env.setdefault('OMP_NUM_THREADS', '1'); env.setdefault('OPENBLAS_NUM_THREADS', '1')
     if hashseed is not None: env['PYTHONHASHSEED'] = str(hashseed)
-    p = subprocess.run([sys.executable, OPS, path, str(seed), ','.join(str(i) for i in idx)], stdout=subprocess.PIPE,
+    p = subprocess.run([sys.executable, OPS, path, str(seed), ','.join(str(i) for i in idx)] + (['--fresh-each'] if fresh_each else []), stdout=subprocess.PIPE,
                        stderr=subprocess.PIPE, env=env, timeout=1200)
-    out = {}
+    out = {}; occ = []
     for line in p.stdout.decode().splitlines():
         parts = line.split(' ', 1)
         if len(parts) == 2 and parts[0].isdigit():
-            out[int(parts[0])] = parts[1]
+            out[int(parts[0])] = parts[1]; occ.append((int(parts[0]), parts[1]))
+        elif len(parts) == 2 and parts[0].startswith('m:'):
+            out[parts[0]] = parts[1]; occ.append((parts[0], parts[1]))
         elif len(parts) == 2 and parts[0] == 'CACHE':
             out['cache'] = parts[1]
     if p.returncode != 0 and not out:
         raise common.Infra('c20_ops failed: ' + p.stderr.decode()[-1500:])
+    if occurrences:
+        return occ, out.get('cache', 'ok')
     return out
+
+def memo_histories(chk, ctx, rng, tier):
+    """(i') for every memo table, two otherwise identical calls that differ in exactly ONE input of the cached computation, in both
+    orders and repeated, each compared with the same call in a fresh interpreter"""
+    from concurrent.futures import ThreadPoolExecutor
+    from .c20_ops import MEMO_INPUTS
+    path = ctx['scratch'] or ctx['repo']
+    nrep = 1 if tier == 'quick' else 3
+    for rep in range(nrep):
+        seed = ctx['seed'] * 100 + 50 + rep
+        jobs = []
+        for t in sorted(MEMO_INPUTS):
+            seq = []
+            for k in range(len(MEMO_INPUTS[t])):
+                a, b = 'm:%s:%d:0' % (t, k), 'm:%s:%d:1' % (t, k)
+                seq += [a, b, a, b] if rng.random() < 0.5 else [b, a, b, a]
+            jobs.append((t, seq))
+        # group the tables into a few processes (tables of one group share a process: more history, not less)
+        ngroups = 8
+        groups = [[j for i, j in enumerate(jobs) if i % ngroups == g] for g in range(ngroups)]
+        groups = [g for g in groups if g]
+        def together(g):
+            return run_ops(path, seed, [tok for _, seq in g for tok in seq], occurrences=True)
+        def alone(g):
+            return run_ops(path, seed, sorted(set(tok for _, seq in g for tok in seq)), fresh_each=True)
+        with ThreadPoolExecutor(max_workers=8) as ex:
+            tog = list(ex.map(together, groups)); alo = list(ex.map(alone, groups))
+        for g, (occ, cache), fresh in zip(groups, tog, alo):
+            chk.l3(('memo-cache-soundness', tuple(t for t, _ in g)))
+            if cache != 'ok':
+                chk.fail('memo-history:cache-corrupted', 'after histories over %s a memo table holds an entry that differs from a fresh recomputation from its key: %s' % ([t for t, _ in g], cache), dict(seed=seed, tables=[t for t, _ in g]))
+            want = [tok for _, seq in g for tok in seq]
+            if [o[0] for o in occ] != want:
+                chk.fail('memo-history:missing', 'the history process produced %d of %d results' % (len(occ), len(want)), dict(seed=seed, tables=[t for t, _ in g])); continue
+            for pos, (tok, dig) in enumerate(occ):
+                parts = tok.split(':'); t = ':'.join(parts[1:-2]); k = int(parts[-2]); v = int(parts[-1])
+                chk.l3(('memo-history', t, MEMO_INPUTS[t][k]))
+                ref = fresh.get(tok)
+                if ref is None:
+                    chk.fail('memo-history:missing:%s' % t, 'no fresh-interpreter result for %s' % tok, dict(seed=seed, token=tok)); continue
+                if dig.startswith('EXC:') and ref.startswith('EXC:'):
+                    chk.stat('memo_history_raises'); continue
+                if dig != ref:
+                    before = [o[0] for o in occ[:pos]]
+                    chk.fail('memo-history:%s:%s' % (t.split(':')[0], MEMO_INPUTS[t][k]),
+                             '%s: the call with %s input %r gives a different result after %d earlier calls (the previous one identical except for %r) than in a fresh interpreter (%s vs %s)' % (
+                                 t, 'the varied' if v else 'the base', MEMO_INPUTS[t][k], len(before), MEMO_INPUTS[t][k], dig[:16], ref[:16]),
+                             dict(seed=seed, table=t, varied_input=MEMO_INPUTS[t][k], token=tok, history=before[-8:]))
+                # the two members of a pair must differ (otherwise the varied input was not an input at all: generator sanity)
+            vals = {}
+            for tok, dig in fresh.items():
+                if isinstance(tok, str) and tok.startswith('m:'): vals.setdefault(tok.rsplit(':', 1)[0], set()).add(dig)
+            for pair, ds in vals.items():
+                chk.stat('memo_pairs'); 
+                if len(ds) < 2: chk.stat('memo_pairs_with_equal_values')
+        chk.sample(dict(clause='memo-history', tables=len(jobs), inputs=sum(len(v) for v in MEMO_INPUTS.values())))
 
 def history(chk, ctx, rng, tier):
     from concurrent.futures import ThreadPoolExecutor
@@ -608,6 +669,139 @@ def k_memo(chk, ctx, rng):
         if not np.allclose(got, want, rtol=1e-10, atol=1e-300):
             chk.fail('memo:_cached_projection', '_cached_projection(%d,%d,%d) after a call history differs from the hypergeometric weights' % (m, n, h), dict(m=m, n=n, h=h))
 
+# ---------------------------------------------------------------- K: every memo table vs the Lean table model
+def memo_adapters(dadi, rng):
+    """per memo table: inputs (names as in the generated table) -> pools of concrete values, the real cached call, and a reference
+    that computes the value without the cache"""
+    from math import comb, lgamma
+    from scipy.special import betaln, betainc
+    N = dadi.Numerics; G = dadi.Godambe; S = dadi.Spectrum
+    ad = {}
+    tuplesN = [tuple(int(x) for x in rng.integers(0, 9, 3)) for _ in range(3)] + [tuple(int(x) for x in rng.integers(0, 9, 4))]
+    ad['_multinomln_cache'] = dict(mod=N, pools=dict(N=tuplesN), call=lambda a: N.multinomln(list(a['N'])),
+                                   ref=lambda a: lgamma(sum(a['N']) + 1) - sum(lgamma(x + 1) for x in a['N']))
+    lnc = lambda n, k: lgamma(n + 1) - lgamma(k + 1) - lgamma(n - k + 1)
+    ad['_BetaBinomln_cache'] = dict(mod=N, pools=dict(a=[0.5, 1.5, 2.25], b=[0.75, 2.0, 3.5], i=[0, 1, 2], n=[2, 4, 5]),
+                                    call=lambda a: N.BetaBinomln(a['i'], a['n'], a['a'], a['b']),
+                                    ref=lambda a: lnc(a['n'], a['i']) + betaln(a['i'] + a['a'], a['n'] - a['i'] + a['b']) - betaln(a['a'], a['b']))
+    part_pools = dict(maxval=[2, 3, 4], minval=[0, 1], n=[2, 3, 4], x=[3, 4, 5, 6])
+    ad['_part_cache'] = dict(mod=N, pools=part_pools, call=lambda a: [list(p) for p in N.cached_part(a['x'], a['n'], a['minval'], a['maxval'])],
+                             ref=lambda a: [list(p) for p in N.part(a['x'], a['n'], a['minval'], a['maxval'])])
+    def precalc_ref(a):
+        counts, multi = [], []
+        for prt in N.part(a['x'], a['n'], a['minval'], a['maxval']):
+            counts.append([prt.count(v) for v in range(a['minval'], a['maxval'] + 1)])
+            multi.append(lgamma(sum(counts[-1]) + 1) - sum(lgamma(c + 1) for c in counts[-1]))
+        return [counts, multi]
+    ad['_part_precalc_cache'] = dict(mod=N, pools=part_pools, call=lambda a: [list(x) for x in N.cached_part_precalc(a['x'], a['n'], a['minval'], a['maxval'])], ref=precalc_ref)
+    def proj_ref(a):
+        m, n, h = a['proj_to'], a['proj_from'], a['hits']
+        return [comb(m, j) * comb(n - m, h - j) / comb(n, h) if 0 <= h - j <= n - m else 0.0 for j in range(m + 1)]
+    ad['_projection_cache'] = dict(mod=N, pools=dict(hits=[0, 2, 3, 5], proj_from=[9, 10, 12], proj_to=[3, 4, 6]),
+                                   call=lambda a: list(N._cached_projection(a['proj_to'], a['proj_from'], a['hits'])), ref=proj_ref)
+    grids = [N.default_grid(9), N.default_grid(9, crwd=2.), np.linspace(0, 1, 9), N.default_grid(10)]
+    def dbeta_ref(a):
+        nx, xx = a['nx'], np.minimum(np.maximum(a['xx'], 0), 1.0)
+        out = []
+        for k in (1, 2):
+            for ii in range(nx + 1):
+                b = betainc(ii + k, nx - ii + 1, xx); out.append(b[1:] - b[:-1])
+        return np.concatenate(out)
+    ad['_dbeta_cache'] = dict(mod=dadi.Spectrum_mod, pools=dict(nx=[2, 3, 5], xx=grids),
+                              call=lambda a: np.concatenate([np.ravel(x) for x in dadi.Spectrum_mod.cached_dbeta(a['nx'], a['xx'])]), ref=dbeta_ref)
+    # the model-spectrum cache: the closure `func` of get_godambe is obtained by intercepting the Hessian routine; every evaluation of
+    # the model function returns a constant spectrum with a value unique to that evaluation, so the log-likelihood the closure
+    # returns identifies the evaluation (its function, parameters, sample sizes, grid) whose spectrum was used
+    log = []            # (value, (func code, grid, ns, params) as passed to the model function)
+    def mk_func(code):
+        def fn(params, ns, pts):
+            c = 2.0 + 0.25 * len(log)
+            log.append((c, dict(func_ex=code, grid_pts=tuple(int(x) for x in pts), ns=tuple(int(x) for x in ns), params=tuple(float(x) for x in params))))
+            return S(c * np.ones(int(ns[0]) + 1))
+        return fn
+    funcs = [mk_func(i) for i in range(3)]
+    def g_call(a):
+        data = S(np.ones(a['ns'][0] + 1)); box = {}
+        orig = G.get_hess
+        def grab(func, p0, eps, args=()):
+            box['f'] = func; return np.zeros((len(p0), len(p0)))
+        G.get_hess = grab
+        try:
+            G.get_godambe(a['func_ex'], list(a['grid_pts']), [], list(a['params']), data, 0.01, just_hess=True)
+        finally:
+            G.get_hess = orig
+        val = box['f'](np.array(a['params']), data)
+        for c, args in log:
+            if val == dadi.Inference.ll(S(c * np.ones(a['ns'][0] + 1)), data):
+                return ('evaluation', args['func_ex'], args['grid_pts'], args['ns'], args['params'])
+        return ('unidentified', float(val))
+    ad['cache'] = dict(mod=G, pools=dict(func_ex=funcs, grid_pts=[(10, 12, 14), (10, 12, 16), (20, 22, 24), (10, 12, 14, 16)], ns=[(6,), (8,)],
+                                         params=[(1.0, 0.5), (1.25, 0.5), (1.0, 0.75)]),
+                       call=g_call, ref=lambda a: ('evaluation', funcs.index(a['func_ex']), tuple(a['grid_pts']), tuple(a['ns']), tuple(float(x) for x in a['params'])))
+    return ad
+
+def same_value(x, y):
+    if isinstance(x, (list, tuple)) and isinstance(y, (list, tuple)):
+        return len(x) == len(y) and all(same_value(a, b) for a, b in zip(x, y))
+    if isinstance(x, (list, tuple)) or isinstance(y, (list, tuple)):
+        return False
+    try:
+        xa = np.asarray(x, dtype=float); ya = np.asarray(y, dtype=float)
+    except Exception:
+        return x == y
+    return xa.shape == ya.shape and bool(np.allclose(xa, ya, rtol=1e-11, atol=1e-300, equal_nan=True))
+
+def k_memo_tables(chk, ctx, rng, tier):
+    """K: the real memo tables against the Lean table model (Driver/Memo.lean; key components from the generated table).  For a
+    history of argument tuples — a base tuple, then each input changed alone, the base again, random tuples — the real cached call
+    returns a value; the value is identified with the argument tuple whose cache-free computation gives it; the model says which
+    tuple's value the memo pattern returns."""
+    dadi = ctx['dadi']; drv = ctx.get('driver')
+    if drv is None or not drv.ok():
+        chk.k_skipped += 1; return
+    ad = memo_adapters(dadi, rng)
+    for cache in sorted(ad):
+        a = ad[cache]
+        r = drv.ask('c20.inputs %s' % cache)
+        if not r.startswith('ok '):
+            chk.k_bad('c20.inputs', dict(cache=cache), 'memo table present in the harness', r, 'the generated table has no memo table of this name'); continue
+        used = r.split(' ')[1].split(',')
+        if sorted(used) != sorted(a['pools']):
+            chk.k_bad('c20.inputs', dict(cache=cache), sorted(a['pools']), used, 'the cached computation reads inputs the harness does not vary (or no longer reads some)'); continue
+        for rep in range(2 if tier == 'quick' else 6):
+            sizes = [len(a['pools'][u]) for u in used]
+            base = [int(rng.integers(n)) for n in sizes]
+            hist = [list(base)]
+            for j in rng.permutation(len(used)):
+                t = list(base); t[j] = int((base[j] + 1 + rng.integers(sizes[j] - 1)) % sizes[j]) if sizes[j] > 1 else base[j]
+                hist += [t, list(base)] if rng.random() < 0.5 else [t, list(t), list(base)]
+            hist += [[int(rng.integers(n)) for n in sizes] for _ in range(4)]
+            hist += [hist[int(rng.integers(len(hist)))] for _ in range(3)]
+            getattr(a['mod'], cache).clear()
+            rep_model = drv.ask('c20.memo %s %s' % (cache, ';'.join(','.join(str(x) for x in t) for t in hist)))
+            inp = dict(cache=cache, inputs=used, history=hist)
+            if not rep_model.startswith('ok '):
+                chk.k_bad('c20.memo', inp, None, rep_model, 'model refuses the history'); continue
+            model = [[int(x) for x in t.split(',')] for t in rep_model[3:].split(';')]
+            args = lambda t: {u: a['pools'][u][c] for u, c in zip(used, t)}
+            bad = None
+            for pos, (t, m) in enumerate(zip(hist, model)):
+                try:
+                    got = a['call'](args(t))
+                except Exception as e:
+                    bad = (pos, 'raises %r' % (e,)); break
+                # L3 on the same call: the property itself (the value of the call's own arguments), independent of the model
+                chk.l3(('memo-table', cache))
+                if not same_value(got, a['ref'](args(t))):
+                    chk.fail('memo-table:%s' % cache, '%s: call %d of the history %s returns a value that is not the value of its own arguments %s' % (cache, pos, hist[:pos + 1], dict(zip(used, t))),
+                             dict(cache=cache, inputs=used, history=hist[:pos + 1]))
+                if bad is None and not same_value(got, a['ref'](args(m))):
+                    who = [h for h in hist[:pos + 1] if same_value(got, a['ref'](args(h)))]
+                    bad = (pos, 'call %d with %s returns the value of %s; the model returns the value of %s' % (pos, dict(zip(used, t)), [dict(zip(used, w)) for w in who[:1]] or 'no call of the history', dict(zip(used, m))))
+            if bad: chk.k_bad('c20.memo:' + cache, inp, bad[1], model[bad[0]], 'memo table and table model disagree')
+            else: chk.k_ok('c20.memo:' + cache)
+            getattr(a['mod'], cache).clear()
+
 class EventChk:
     """Check stub used inside the crash-isolated child: emits one JSON event per line.  `begin` announces the call about to be
     made (so that a hard crash - heap corruption in the C kernels - is attributed to it) and skips cases already done."""
@@ -675,6 +869,8 @@ def run(chk, ctx):
     chk.assumptions.append('fresh-interpreter reference runs use the same scratch build of dadi')
     layout_isolated(chk, ctx, tier)
     k_memo(chk, ctx, rng)
+    k_memo_tables(chk, ctx, common.Rng(ctx['seed'], 'C20-K'), tier)
+    memo_histories(chk, ctx, common.Rng(ctx['seed'], 'C20-memo'), tier)
     history(chk, ctx, rng, tier)
 
 def replay(chk, ctx, data):
